@@ -6,24 +6,42 @@ from analysis.facts import norm_path
 from analysis.sym import sym, show_in, nosite, peel, core, walk, ret_values, args_of, guards_at, atoms_at, \
     variant_facts_at, cmp_facts_at, init_value, edge_guards, symbolizer, simplify, loop_source, defs_of, var_defs, agg_field
 from analysis.pat import match, Call, Cap, ANY, Pred, Const, has, chain_names
-from rules.common import closure_of, closures_in, panic_sites, dominated_by_edge
+from rules.common import closure_of, closures_in, panic_sites, dominated_by_edge, state_locals, local_defs, V
 
 W = 'windows::'
 
 
+R = {}
+
+
+def _roles(b):
+    """window_start = the usize loop variable compared with the text length; window_length = max - (1 + [start > 0]) * context"""
+    R.clear()
+    for l in state_locals(b, r'^usize$'):
+        for g in edge_guards(b):
+            t = core(g.atom()[0])
+            if t[0] == 'bin' and t[1] == 'Lt' and t[2][0] == 'var' and t[2][2] == l and match(t[3], Call('CharString::len', ANY)):
+                R['window_start'] = l
+    if 'window_start' not in R:
+        raise AnchorMissing('the window loop variable (compared with the text length)')
+    ws = V(R['window_start'])
+    pat = ('bin', 'Sub', ('arg', 2, ANY), ('bin', 'Mul', ('bin', 'Add', Const(1), Pred(lambda u: has(u, ('bin', 'Gt', ws, Const(0))))), ('arg', 3, ANY)))
+    R['wl_trees'] = []
+    z = symbolizer(b)
+    for s_ in b.stmts():
+        if s_.kind == 'assign' and not s_.lhs.proj:
+            v = core(simplify(z.rvalue(s_.rv, 0, ())))
+            if match(v, pat) and nosite(v) not in R['wl_trees']:
+                R['wl_trees'].append(nosite(v))
+
+
 def _var(name):
-    return Pred(lambda t: t[0] == 'var' and t[1] == name)
+    return Pred(lambda t: isinstance(t, tuple) and t and t[0] == 'var' and len(t) > 2 and R.get(name) == t[2])
 
 
 def N(b, name):
-    d = [nosite(core(v)) for site, v in var_defs(b, name)]
-
-    def f(t):
-        if t[0] == 'var' and t[1] == name:
-            return True
-        ct = nosite(core(t))
-        return any(ct == x for x in d)
-    return Pred(f)
+    assert name == 'window_length'
+    return Pred(lambda t: nosite(core(t)) in R.get('wl_trees', []))
 
 
 def _invalid_cfg_guard(b):
@@ -67,8 +85,9 @@ def r1(ctx):
         other = [w for w in b.succ[g.block] if w != g.target]
         ok = bool(subs) and bool(other) and all(t.bb not in region and cfg.edge_dominates(b, (g.block, other[0]), t.bb) for t in subs)
         ctx.require(ok, b, 'guard-dominates-sub|' + fn, '%s: max - k*context is computed only for valid configurations' % fn, None)
-        wl = [core(v) for site, v in var_defs(b, 'window_length')]
-        okw = len(wl) == 1 and match(wl[0], ('bin', 'Sub', ('arg', 2, ANY), ('bin', 'Mul', ('bin', 'Add', Const(1), Pred(lambda u: has(u, ('bin', 'Gt', _var('window_start'), Const(0))))), ('arg', 3, ANY))))
+        _roles(b)
+        wl = R['wl_trees']
+        okw = len(wl) == 1
         ctx.require(okw, b, 'window-length|' + fn, '%s: window_length = max - (1 + [window_start > 0]) * context' % fn, 'window_length = %s' % [show_in(b, x) for x in wl])
 
 
@@ -85,7 +104,8 @@ def r2(ctx):
         loop = cfg.innermost_loop(b, pushes[0].bb)
         if loop is None:
             raise AnchorMissing('%s: window loop' % fn)
-        defs = var_defs(b, 'window_start')
+        _roles(b)
+        defs = local_defs(b, R['window_start'])
         init = [core(v) for site, v in defs if site.bb not in loop.blocks]
         step = [(site, core(v)) for site, v in defs if site.bb in loop.blocks]
         ctx.require(len(init) == 1 and init[0][0] == 'const' and init[0][2] == 0, b, 'start-zero|' + fn, '%s: the first window starts at 0' % fn, None)
@@ -137,6 +157,7 @@ def r3(ctx):
         b = ctx.body(W + fn)
         pushes = [t for t in b.calls(r'Vec::push$') if 'Window' in b.local_ty(t.args[0].place.local)]
         w = sym(b, pushes[0].args[1])
+        _roles(b)
         f = {k: core(agg_field(ctx.facts, w, k)) for k in ('ctx_start', 'window_start', 'window_end', 'ctx_end', 'byte_ctx_start', 'byte_window_start',
                                                             'byte_window_end', 'byte_ctx_end', 'str')}
         eq = lambda x: Pred(lambda u: nosite(core(u)) == nosite(x))
